@@ -166,6 +166,30 @@ pub fn decode_session(bytes: &[u8], explicit_len: Option<usize>) -> Vec<Message>
         id += 1;
         msgs.push(build_message(Sym::Initialized, id, &mut s));
     }
+    if proper_start && s.chance(1, 8) {
+        // long phases: up to 40 messages in the main phase, shutdown, 32-70 further messages, exit
+        let body = [Sym::Supported, Sym::UnknownRequest, Sym::DollarRequest, Sym::DocNotification, Sym::UnknownNotification, Sym::Initialize];
+        let mut push = |sym: Sym, id: &mut i64, s: &mut Src, msgs: &mut Vec<Message>| {
+            let m = build_message(sym, *id, s);
+            if m.id.is_some() {
+                *id += 1;
+            }
+            msgs.push(m);
+        };
+        for _ in 0..s.below(41) {
+            let sym = body[s.below(body.len())];
+            push(sym, &mut id, &mut s, &mut msgs);
+        }
+        push(Sym::Shutdown, &mut id, &mut s, &mut msgs);
+        for _ in 0..32 + s.below(39) {
+            let sym = body[s.below(body.len())];
+            push(sym, &mut id, &mut s, &mut msgs);
+        }
+        if s.chance(3, 4) {
+            push(Sym::Exit, &mut id, &mut s, &mut msgs);
+        }
+        return msgs;
+    }
     for _ in 0..n {
         let sym = SYMS[s.below(SYMS.len())];
         let m = build_message(sym, id, &mut s);
